@@ -336,7 +336,7 @@ class Pool:
         if chunk is None:
             chunk = max(1, min(256, len(reqs) // (self.n * 4) or 1))
         chunks = [(i, min(i + chunk, len(reqs))) for i in range(0, len(reqs), chunk)]
-        idx = {"next": 0}
+        idx = {"next": 0, "hangs": 0}
         lock = threading.Lock()
         errors = []
 
@@ -350,7 +350,14 @@ class Pool:
                             return
                         idx["next"] = c + 1
                     lo, hi = chunks[c]
-                    res = w.run_chunk(reqs[lo:hi], timeout)
+                    # every request is run and judged, but once many have not answered in time the rest of a run
+                    # that has failed anyway gets less patience (8 hangs: 5 s, 48 hangs: 2 s; answers take milliseconds)
+                    t = timeout if idx["hangs"] < 8 else (min(timeout, 5) if idx["hangs"] < 48 else min(timeout, 2))
+                    res = w.run_chunk(reqs[lo:hi], t)
+                    nh = sum(1 for r in res if r is not None and "hang" in r)
+                    if nh:
+                        with lock:
+                            idx["hangs"] += nh
                     out[lo:hi] = res
             except Machinery as e:
                 errors.append(e)
